@@ -91,6 +91,7 @@ class FramedBuffer:
     Whether the read succeeds is recorded in the path condition as `get(buf, index) is Some` (indexing panics where `get`
     answers None).  The TLV parser's result is assumed not to be Ok: only the paths after a parser failure are of interest."""
     GET = 'core::slice::<impl [T]>::get'
+    FIRST, SPLIT_FIRST = 'core::slice::<impl [T]>::first', 'core::slice::<impl [T]>::split_first'
     def __init__(self, buf, x, parser):
         self.buf, self.x, self.parser = buf, x, parser
     def octet(self, k):
@@ -121,6 +122,12 @@ class FramedBuffer:
         if cal == self.parser:
             t = ('call', cal, tuple(args), node.get('id'))
             return [Out('val', t, st.event(('call', cal, tuple(args), node)).assume(('is', t, 'Ok'), False))]
+        if len(args) == 1 and args[0] == self.buf and cal in (self.FIRST, self.SPLIT_FIRST):
+            # first() = get(0); split_first() = Some((octet 0, the buffer without it)) exactly when get(0) is Some
+            probe = ('call', self.GET, (self.buf, ('lit', 0)), None)
+            val = self.octet(0) if cal == self.FIRST else ('tuple', (self.octet(0), absx.subslice_term(self.buf, 1, 0)))
+            return [Out('val', ('ctor', 'Some', (val,)) if there else ('ctor', 'None', ()), s)
+                    for there, s in I.decide(('is', probe, 'Some'), st.event(('call', cal, tuple(args), node)))]
         if len(args) != 2 or args[0] != self.buf or not (cal == '#index' or cal == self.GET):
             return None
         bd = self.bounds(args[1])
